@@ -291,6 +291,34 @@ impl<'a> Ctx<'a> {
     /// justified by the rustdoc of `FromIterator for BTreeSet` (every item is inserted), `Iterator::chain` (all items of the
     /// first iterator, then all items of the second) and `Iterator::flat_map` (for every item of the outer iterator, in
     /// order, every item of the iterator the closure returns)
+    /// E7 inside fused stages: `&x` sub-patterns (Copy items) -> fresh binder `x__r` + `let x = *x__r;`
+    fn fuse_pat(&self, pat: &syn::Pat) -> (String, String) {
+        fn collect<'p>(p: &'p syn::Pat, out: &mut Vec<(&'p syn::PatReference, String)>) {
+            match p {
+                syn::Pat::Reference(r) => {
+                    if let syn::Pat::Ident(id) = &*r.pat { out.push((r, id.ident.to_string())); }
+                }
+                syn::Pat::Tuple(t) => { for e in &t.elems { collect(e, out); } }
+                syn::Pat::Paren(pp) => collect(&pp.pat, out),
+                _ => {}
+            }
+        }
+        let mut refs = vec![];
+        collect(pat, &mut refs);
+        let (ps, pe) = self.src.range(pat.span());
+        let mut text = String::new();
+        let mut pos = ps;
+        let mut lets = String::new();
+        for (r, name) in refs {
+            let (rs, re) = self.src.range(r.span());
+            text.push_str(&self.src.text[pos..rs]);
+            text.push_str(&format!("{name}__r"));
+            pos = re;
+            lets.push_str(&format!(" let {name} = *{name}__r;"));
+        }
+        text.push_str(&self.src.text[pos..pe]);
+        (text, lets)
+    }
     /// E14b: one collected segment as a loop; `.map(|PAT| B)` / `.filter(|PAT| B)` stages are fused into the loop body:
     /// `for vx_xK in BASE { let PAT = vx_xK; let vx_sK_1 = B; let PAT2 = &vx_sK_1; if (B2) { SINK(vx_sK_1); } }`.
     /// Items flow through all stages one at a time in source order, exactly as the lazy adapters evaluate them.
@@ -415,15 +443,15 @@ impl<'a> Ctx<'a> {
                 }
             };
             self.closures += 1;
-            let pat = self.src.slice(cl.inputs[0].span()).to_string();
+            let (pat, plets) = self.fuse_pat(&cl.inputs[0]);
             let (cbs, cbe) = self.src.range(cl.body.span());
             if *kind == "map" {
                 let nv = format!("vx_s{o}_{}", k + 1);
-                self.add(prev_end, cbs, format!("{pending}let {pat} = {cur}; let {nv} = "), "E14b fused map stage");
+                self.add(prev_end, cbs, format!("{pending}let {pat} = {cur};{plets} let {nv} = "), "E14b fused map stage");
                 pending = "; ".to_string();
                 cur = nv;
             } else {
-                self.add(prev_end, cbs, format!("{pending}let {pat} = &{cur}; if ("), "E14b fused filter stage");
+                self.add(prev_end, cbs, format!("{pending}let {pat} = &{cur};{plets} if ("), "E14b fused filter stage");
                 pending = ") { ".to_string();
                 closers.push_str(" }");
             }
